@@ -107,7 +107,7 @@ def formulas(ctx):
     big = ctx.big()
     for f in small_formulas(2, 3 if big else 2):
         yield f, 3
-    for _ in range(6000 if big else 1200):
+    for _ in range(6000 if big else 500):
         nv = rng.randint(1, 5)
         shared = [] if rng.random() < 0.5 else None
         yield gen_formula(rng, rng.randint(1, 5 if big else 4), nv, shared), nv + 1 + rng.choice([0, 0, 3])
